@@ -1,9 +1,6 @@
 import warnings; warnings.simplefilter('ignore')
-import sys, json, glob; sys.path.insert(0,'/verif')
-import cirq, numpy as np
-f=glob.glob('/verif/replays/C06_*.json')[0]
-c=json.load(open(f))['concrete_call']
-circ=eval(c['args']['circuit'])
-print(circ)
-out=cirq.merge_k_qubit_unitaries(circ, k=2, context=cirq.TransformerContext(tags_to_ignore=('ignore',), deep=False))
-print(out)
+import sys; sys.path.insert(0,'/verif')
+from contracts import C06_transformers as M
+for sd in range(0,8):
+    r=M.standin_subcircuit_handling('thorough',sd)
+    print(sd, r['cases'], r['failures'], [(f['failed'], f['args']['transformer'], f['args']['deep']) for f in r['_fails']])
